@@ -17,8 +17,11 @@ from vlib import dbusmodel
 
 class BusName(object):
     def __init__(self, name, bus=None, allow_replacement=False, replace_existing=False, do_not_queue=False):
+        from .bus import VBUS
         self._name = name
         self._bus = bus
+        if bus is not None and hasattr(bus, 'objects'):
+            VBUS.own(name, bus)
 
     def get_name(self):
         return self._name
@@ -34,6 +37,14 @@ class Object(object):
         self._connection = conn
         if conn is not None and object_path is not None:
             self._locations.append((conn, object_path, False))
+            self._vbus_register(conn, object_path)
+
+    def _vbus_register(self, conn, path):
+        from vlib import simloop
+        if hasattr(conn, 'objects'):
+            conn.objects[path] = self
+        # the process (main-loop context) that exported the object handles calls to it
+        self._vbus_ctx = simloop.current()
 
     @property
     def locations(self):
@@ -46,10 +57,14 @@ class Object(object):
     def remove_from_connection(self, connection=None, path=None):
         if not self._locations:
             raise LookupError('%r is not exported' % self)
+        for conn, opath, _f in self._locations:
+            if hasattr(conn, 'objects') and conn.objects.get(opath) is self:
+                del conn.objects[opath]
         self._locations = []
 
     def add_to_connection(self, connection, path):
         self._locations.append((connection, path, False))
+        self._vbus_register(connection, path)
 
 
 def method(dbus_interface, in_signature=None, out_signature=None, **_kw):
@@ -82,6 +97,10 @@ def signal(dbus_interface, signature=None, **_kw):
                          error=(None if error is None else '%s: %s' % (type(error).__name__, error)))
             if error is not None:
                 raise error
+            if locations:
+                from .bus import VBUS
+                for conn, opath, _f in locations:
+                    VBUS.emit(conn, opath, dbus_interface, member, dbusmodel.convert(signature, args) if signature is not None else list(args))
 
         emit_signal._dbus_is_signal = True
         emit_signal._dbus_interface = dbus_interface
